@@ -202,12 +202,14 @@ def run_case(driver, script, rng, use_z3=True, what=("df", "excel", "gantt", "js
             vals[nm] = z3.is_true(v)
         elif srt == "Int" and z3.is_int_value(v):
             vals[nm] = v.as_long()
-    if rng.random() < 0.6 and real.problem.delta_time is None and real.problem.horizon is None:
+    if rng.random() < (0.85 if what == ("gantt",) else 0.6) and real.problem.delta_time is None and real.problem.horizon is None:
         # a stretched copy of the schedule: every non-negative instant multiplied by 9, 11 or 13, so that the chart and
         # the sheets also see horizons near and above 100 and bars that end at the horizon (the exporters read a
         # solution object, whatever problem it solves; only for problems without a fixed horizon, whose reported horizon
         # is read from the interpretation and scales with it)
-        k = rng.choice([9, 11, 13, 17, 19, 23])
+        top = max([v for v in vals.values() if isinstance(v, int) and not isinstance(v, bool)] + [1])
+        ks = [k_ for k_ in (3, 5, 7, 9, 11, 13, 17, 19, 23) if 80 <= k_ * top <= 260]
+        k = rng.choice(ks) if ks else 1         # (charts with thousands of ticks take minutes to render)
         vals = {n: (v * k if isinstance(v, int) and not isinstance(v, bool) and v >= 0 else v) for n, v in vals.items()}
         from harness import sm as _sm
         try:
